@@ -210,15 +210,17 @@ theorem C04_energy (ast : Attr.St Rat) (p : AttackP Rat) (tgt : Int) (hp : Rat) 
     exact h2
 
 /-- **Listener adjustments are per hit**: what a hit listener adds to the snapshots of the hit on
-one defender is seen by that hit only — every other hit of the same attack is computed from the
+one defender (sums for bonuses, the multiplicative stacking for damage reduction and fatigue) is seen by that hit only — every other hit of the same attack is computed from the
 attacker's and defender's own stats, as if no listener existed. -/
 theorem C04_listener_adjustment_per_hit (s : St Rat) (p : AttackP Rat) (a : HitAdj Rat) (tgt : Int) (draw : Rat)
     (h0 : a.onlyTgt ≠ 0) :
     (tgt ≠ a.onlyTgt → hitFactors s { p with adj := some a } tgt draw = hitFactors s { p with adj := none } tgt draw) ∧
     hitFactors s { p with adj := some a } a.onlyTgt draw =
       factors { statsOf s p.src with allDmgPct := (statsOf s p.src).allDmgPct + a.attDmgAdd,
-                                     critChance := (statsOf s p.src).critChance + a.attCritAdd }
-              { statsOf s a.onlyTgt with allTaken := (statsOf s a.onlyTgt).allTaken + a.defTakenAdd }
+                                     critChance := (statsOf s p.src).critChance + a.attCritAdd,
+                                     fatigue := 1 - (1 - (statsOf s p.src).fatigue) * (1 - a.attFatigueAdd) }
+              { statsOf s a.onlyTgt with allTaken := (statsOf s a.onlyTgt).allTaken + a.defTakenAdd,
+                                         reduce := 1 - (1 - (statsOf s a.onlyTgt).reduce) * (1 - a.defReduceAdd) }
               (stanceOfU s a.onlyTgt) { p with adj := some a } (hitRatioOf p) draw := by
   have hf : ∀ (x : Option (HitAdj Rat)) (A D : C) (st r dr : Rat),
       factors A D st { p with adj := x } r dr = factors A D st p r dr := fun _ _ _ _ _ _ => rfl
